@@ -690,3 +690,90 @@ def alias_in_join(si: int) -> bool:
     post: _
     """
     return done(fast.native(_alias_in_join, fast.pick(si, len(JOIN_SHAPES))))
+
+
+# ------------------------------------------------------------------ rewrites compose when nested / applied to operator expressions
+from obligations.C11 import nested_composes  # noqa: E402
+
+FORMS = [
+    "regexp_replace({a}, 'a', 'x')",
+    "regexp_replace({a}, '\\\\d')",
+    "regexp_substr({a}, 'a')",
+    "regexp_substr({a}, '^.', 2)",
+    "sha2({a})",
+    "trim({a})",
+    "upper({a})",
+    "split({a}, ',')",
+    "to_date({a})",
+    "cast({a} as varchar)",
+    "try_to_number({a}, 5)",
+    "to_decimal({a}, 10, 2)",
+    "dateadd(day, 1, cast({a} as date))",
+    "equal_null({a}, 'x')",
+    "nvl2({a}, 1, 2)",
+    "datediff(day, cast({a} as date), '2020-01-01')",
+    "cast({a} as number)",
+    "to_timestamp({a})",
+    "coalesce({a}, 'z')",
+    "to_char({a})",
+    "concat({a}, 'q')",
+    "to_timestamp_ntz({a})",
+    "cast({a} as int)",
+    "cast({a} as float)",
+    "({a}) || 'z'",
+    "({a}) + 1",
+]
+# self-nesting that is broken on the pinned tree (listed finding C10-same-function-nested-not-rewritten)
+SELF_NESTING_FINDING = {
+    "regexp_substr({a}, 'a')", "regexp_substr({a}, '^.', 2)", "trim({a})", "split({a}, ',')", "try_to_number({a}, 5)", "to_decimal({a}, 10, 2)",
+    "datediff(day, cast({a} as date), '2020-01-01')", "to_timestamp_ntz({a})",
+}  # fmt: skip
+
+
+def _fname(form: str) -> str:
+    return form.split("(")[0]
+
+
+def _nest(oi: int, ii: int) -> bool:
+    outer, inner = FORMS[oi], FORMS[ii]
+    if _fname(outer) == _fname(inner) and (outer in SELF_NESTING_FINDING or inner in SELF_NESTING_FINDING):
+        return True
+    ok, _a, _b = nested_composes(outer, inner)
+    return ok
+
+
+@ob(
+    "C10.rewrites_compose_when_nested",
+    encodes=["fakesnow.cursor.FakeSnowflakeCursor._transform (all transforms, in order; sqlglot Expression.transform does not revisit replaced nodes)", "fakesnow.transforms.regex_replace / regex_substr / to_decimal / try_to_number / trim_cast_varchar / dateadd_* / to_date / to_timestamp* / split / sha256"],
+    bounds=f"{len(FORMS)} x {len(FORMS)} (outer, inner) pairs of rewritten functions and operator expressions (REGEXP_REPLACE with/without replacement, REGEXP_SUBSTR with/without "
+    "position, SHA2, TRIM, SPLIT, TO_DATE, TO_DECIMAL, TRY_TO_NUMBER, DATEADD, DATEDIFF, EQUAL_NULL, NVL2, TO_TIMESTAMP[_NTZ], TO_CHAR, casts, ||, +): the engine SQL "
+    "of outer(inner(s)), read back from the emitted text (so operator precedence counts), is outer's rewrite applied to inner's rewrite",
+    timeout=(300, 600),
+    carve="C10-same-function-nested-not-rewritten",
+    shards=(2, 2),
+)
+def nesting(oi: int, ii: int) -> bool:
+    """
+    pre: 0 <= oi < len(FORMS) and 0 <= ii < len(FORMS) and (SHARD < 0 or oi % 2 == SHARD)
+    post: _
+    """
+    return done(fast.native(_nest, fast.pick(oi, len(FORMS)), fast.pick(ii, len(FORMS))))
+
+
+def _real_nesting(a: dict):
+    from vf.real import real_cursor
+
+    outer, inner = FORMS[a["oi"]], FORMS[a["ii"]]
+    fs, conn, cur = real_cursor(False)
+    try:
+        cur.execute("create table t (s varchar)")
+        cur.execute("insert into t values ('aaa-bbb 12'), ('2020-01-02'), ('xy')")
+        cur.execute("create table t_step as select " + inner.format(a="s") + " as zz9 from t where s = 'aaa-bbb 12' or s = 'xy'")
+        two = cur.execute(f"select {outer.format(a='zz9')} from t_step").fetchall()
+        nested = cur.execute(f"select {outer.format(a=inner.format(a='s'))} from t where s = 'aaa-bbb 12' or s = 'xy'").fetchall()
+    except Exception as e:  # noqa: BLE001
+        return None, f"real stack: {type(e).__name__}: {str(e)[:160]}"
+    return nested != two, f"real stack: nested -> {nested}; outer over the stored inner result -> {two}"
+
+
+REGISTRY["C10.rewrites_compose_when_nested"].real_replay = _real_nesting
